@@ -107,7 +107,7 @@ class Images:
         app = env.make_app(self.backend, app_id=self.app_id, db=self.db, max_pending_seconds=5.0,
                            runner_considered_dead_after_minutes=1.0, cached_status_time=0.0)
         app.c18_prog = tasks.bind(app, T.wf_prog, max_retries=3)
-        app.c18_sub = tasks.bind(app, T.wf_sub)
+        app.c18_sub = tasks.bind(app, T.wf_sub, max_retries=2)
         self._monitor(app)
         self.n_images += 1
         if self.first is None:
@@ -258,6 +258,7 @@ def run_history(backend: str, image: str, prog: tuple, history: str, die_at: int
         "log": [dict(r) for r in T.LOG],
         "events": events,
         "launches": list(im.launches),
+        "sub_log": [dict(r) for r in T.SUB_LOG],
         "store": im.store(reader),
         "status": {i: reader.orchestrator.get_invocation_status(i).name for i in ids},
         "images": im.n_images,
@@ -305,6 +306,18 @@ def judge(obs: dict, prog: tuple) -> tuple[list[tuple], int]:
                     clause = "replay-diverges" if kind != "exec" else "sub-invocation-differs-between-attempts"
                     out.append((clause, kind, {"workflow": i, "attempt": r["attempt"], "position": pos,
                                                "first_execution": a[1], "this_execution": b[1]}))
+    # --- sub-tasks draw values inside their parent's workflow: their re-execution replays them too
+    by_sub: dict = {}
+    for r in obs.get("sub_log", []):
+        by_sub.setdefault(r["inv"], []).append(r)
+    for sid, runs in by_sub.items():
+        for r in runs[1:]:
+            comparisons += 1
+            if tuple(r["values"]) != tuple(runs[0]["values"]):
+                out.append(("sub-task-replay-diverges", "random+uuid",
+                            {"sub_invocation": sid, "attempt": r["attempt"], "first_execution": runs[0]["values"],
+                             "this_execution": r["values"]}))
+                break
     # --- sub-tasks: launches per (workflow, call), what was handed back
     launched_by = {l["inv"]: l for l in obs["launches"] if l["task"] == "wf_sub"}
     for i in ids:
@@ -465,6 +478,7 @@ class Scn:
         ex = s.run([("w0", worker(0)), ("w1", worker(1))])
         client.state_backend.wait_for_all_async_operations()
         obs = {"ids": ids, "log": [dict(r) for r in T.LOG], "events": events, "launches": list(im.launches),
+               "sub_log": [dict(r) for r in T.SUB_LOG],
                "store": im.store(client), "images": im.n_images,
                "status": {i: client.orchestrator.get_invocation_status(i).name for i in ids}}
         obs["subs"] = im.subs(client, obs["log"])
